@@ -8,11 +8,12 @@ Proof. intros x H. unfold domain in H. apply filter_In in H. exact H. Qed.
 
 Lemma table_ok_sound : forall T F, table_ok T F = true ->
   forall c o, In (c, o) domain ->
+  known_deviation (c, o) = false ->
   exists s, spec c o = Some s /\ agrees (fst (dispatch T F c o)) s = true.
 Proof.
-  intros T F Hok c o Hin. destruct (domain_in_all _ Hin) as [Hall Hsp].
+  intros T F Hok c o Hin Hk. destruct (domain_in_all _ Hin) as [Hall Hsp].
   unfold table_ok in Hok. rewrite forallb_forall in Hok. specialize (Hok _ Hall).
-  unfold cell_ok in Hok. unfold specified in Hsp. cbn [fst snd] in *.
+  unfold cell_ok in Hok. unfold specified in Hsp. rewrite Hk in Hok. cbn [fst snd orb] in *.
   destruct (spec c o) as [s|] eqn:E; [|discriminate]. exists s. split; [reflexivity|exact Hok].
 Qed.
 
